@@ -9,7 +9,11 @@
     * the keyword semantics of `Model/SchedCore.lean` (23 record operations: WELSPECS incl. regrouping
       and head change, COMPDAT, COMPLUMP, WPIMULT immediate/deferred, WELOPEN, WCONPROD, WCONINJE,
       WCONHIST, WCONINJH, WHISTCTL, WELTARG, WEFAC, WECON, WTEST, WLIST, GRUPTREE, GEFAC, GCONPROD,
-      GCONINJE, NEXTSTEP, UDQ and ACTIONX registries) is causal end to end (`causal`);
+      GCONINJE, NEXTSTEP, UDQ and ACTIONX registries; COMPORD: the connection ordering TRACK / DEPTH /
+      INPUT a new well takes from the COMPORD keyword of its own report step, and the connection
+      sequence `WellConnections::order()` produces after COMPDAT) is causal end to end (`causal`);
+    * the connection ordering of a well is fixed at its creation: no input of the same or any later
+      report step — COMPORD keywords included — changes it (`well_order_fixed`);
     * the copy-on-write discipline: effect traces without in-place writes to shared objects and
       without writes to globals a snapshot reads leave all earlier snapshots unchanged
       (`cow_frame`, `cow_frame_blocks`);
@@ -22,6 +26,7 @@
   members outside the observation record, the state loaded from a restart file.
 -/
 import OpmVerif.Proofs.SchedCore
+import OpmVerif.Proofs.SchedOrder
 import OpmVerif.Proofs.SchedHeap
 import OpmVerif.Gen.HandlerEffects
 
@@ -88,6 +93,22 @@ theorem causal_on_blocks (k : Consts) (a b b' : List (List CKw)) (ss ss' : List 
     (h : run k (a ++ b) = .ok ss) (h' : run k (a ++ b') = .ok ss') :
     ss.take a.length = ss'.take a.length :=
   causal_blocks h h'
+
+/-- The connection ordering (COMPORD: TRACK / DEPTH / INPUT) of a well is fixed when the well is
+created: if the last snapshot of the prefix `a` knows well `w` with ordering `o`, every later
+snapshot does, whatever the blocks `b` that follow contain — COMPORD keywords naming the well
+included.  (The ordering of a new well is looked up in `Props.compord`, which `beginBlock` sets
+from the well's own block only.) -/
+theorem well_order_fixed (k : Consts) (a b : List (List CKw)) (ss : List State) (h : run k (a ++ b) = .ok ss)
+    (w : String) (o : Nat) (si : State) (hi : (ss.take a.length).getLast? = some si) (hw : ordOf si w = some o) :
+    ∀ x ∈ ss.drop a.length, ordOf x w = some o :=
+  run_order_fixed k a b ss h w o si hi hw
+
+/-- … and within a report step: every record of every keyword (COMPORD keywords have no handler)
+leaves the ordering of the wells existing before the step as it was. -/
+theorem step_keeps_order (k : Consts) (s s' : State) (blk : List CKw) (h : stepBlock k s blk = .ok s') (w : String) (o : Nat)
+    (hw : ordOf s w = some o) : ordOf s' w = some o :=
+  stepBlock_ord k s s' blk h w o hw
 
 open OpmVerif.SchedHeap in
 /-- Heap frame lemma: a safe effect trace (no in-place write to an object reachable from an
@@ -182,6 +203,32 @@ example : ((schedule k0 (d0.seconds * 1000) (pre0 ++ t0 :: tailA)).toOption.map 
 example : ((schedule k0 (d0.seconds * 1000) (pre0 ++ t0 :: tailA)).toOption.bind (·[2]?)).map (fun s => s.p.actions.length) = some 1 ∧
           ((schedule k0 (d0.seconds * 1000) (pre0 ++ t0 :: tailB)).toOption.bind (·[2]?)).map (fun s => (lookup s.p.groups "G2").map (·.parent)) = some (some "FIELD") := by
   decide +kernel
+
+/-! COMPORD.  OP_1 is created in a report step without COMPORD and connected in non-TRACK order
+(layers 1, 3-4, 2); a COMPORD naming it follows in a later report step (tail C) or nothing follows
+(truncation): state 0 is the same, the well is TRACK ordered and its connections are in
+TRACK sequence.  The same keywords with the COMPORD in the creation step — even after WELSPECS —
+give INPUT order and the input sequence. -/
+def preC : List (Kw CKw) :=
+  [.other (.ops "WELSPECS" [.welspecs "OP_1" "G1" (some 1) (some 1)]),
+   .other (.ops "COMPDAT" [.compdat "OP_1" 0 0 1 1 1, .compdat "OP_1" 0 0 3 4 1, .compdat "OP_1" 0 0 2 2 1])]
+def tC : Kw CKw := .tstep [{ num := 10, den := 1 }]
+def tailC : List (Kw CKw) := [.other (.compord [("OP_1", 2)]), .other (.ops "COMPDAT" [.compdat "OP_1" 2 2 1 1 1]), .tstep [{ num := 5, den := 1 }]]
+def obsC (s : State) : Option Nat × List Nat := (ordOf s "OP_1", (connsOf s.c.m "OP_1").map (·.k))
+
+example : ((schedule k0 (d0.seconds * 1000) (preC ++ tC :: tailC)).toOption.map fun ss => ss.map obsC) =
+    some [(some 0, [0, 1, 2, 3]), (some 0, [0, 1, 2, 3, 0]), (some 0, [0, 1, 2, 3, 0])] := by decide +kernel
+example : ((schedule k0 (d0.seconds * 1000) (preC ++ tC :: [])).toOption.map fun ss => ss.map obsC) =
+    some [(some 0, [0, 1, 2, 3]), (some 0, [0, 1, 2, 3])] := by decide +kernel
+-- COMPORD in the creation step, after WELSPECS and COMPDAT: found by `block.get("COMPORD")`
+example : ((schedule k0 (d0.seconds * 1000) (preC ++ [.other (.compord [("*", 1), ("OP*", 2)]), tC])).toOption.map fun ss => ss.map obsC) =
+    some [(some 2, [0, 2, 3, 1]), (some 2, [0, 2, 3, 1])] := by decide +kernel
+-- only the first COMPORD keyword of the block counts; DEPTH sorts by layer
+example : ((schedule k0 (d0.seconds * 1000) (.other (.compord [("OP_1", 1)]) :: preC ++ [.other (.compord [("OP_1", 2)]), tC])).toOption.map fun ss => ss.map obsC) =
+    some [(some 1, [0, 1, 2, 3]), (some 1, [0, 1, 2, 3])] := by decide +kernel
+-- TRACK walks from the head: a connection in the head column comes before a nearer-to-surface one elsewhere
+example : (reorder 0 2 2 [{ i := 4, j := 4, k := 0, state := 1, complnum := 1, pimult := "1" }, { i := 1, j := 1, k := 3, state := 1, complnum := 2, pimult := "1" },
+                          { i := 1, j := 1, k := 1, state := 1, complnum := 3, pimult := "1" }]).map (fun c => (c.i, c.k)) = [(1, 1), (1, 3), (4, 0)] := by decide
 
 /-! restart with SKIPREST at report step 2 (1 FEB 2015): the skipped part contributes RPTRST and
 TUNING to block 0, its WELSPECS and its DATES record are dropped -/
